@@ -10,7 +10,8 @@ PROP = "C18"
 LEVEL = "exploration"
 RULE = ("exhaustive grid |src| 0..12 x |dest| 1..8 x evenly x max_connects in {1,2,3,inf} (documented "
         "precondition |src| <= |dest|*max_connects, boundary included) x 50 seeds of the global random module, "
-        "recorded World.connect calls checked against the documented distribution; Hypothesis for sizes up to "
+        "x the kind of iterable passed as destination set (list, tuple, generator, iterator, dict view, filter) and "
+        "as source set (list, tuple); recorded World.connect calls checked against the documented distribution; Hypothesis for sizes up to "
         "200, large destination sets (64..5000) with a small remainder in the last round, and an end-to-end sample "
         "against a real World; non-trivial = |src| > |dest| or |src| = "
         "|dest|*max_connects or finite max_connects; distinct = distinct (sizes, flags, seed) tuples")
@@ -18,6 +19,9 @@ ASSUMPTIONS = [
     "the helpers use only World.connect (checked against a recording stand-in; a sample runs against a real World)",
     "the seed of the global random module is part of the case (the helpers draw from it)",
 ]
+
+
+DEST_KINDS = ("list", "tuple", "gen", "iter", "keys", "filter")
 
 
 def exhaustive(tier):
@@ -42,6 +46,34 @@ class RecWorld:
         self.calls.append((src, dest, attrs, kw))
 
 
+class LineBudget(BaseException):
+    pass
+
+
+def bounded(fn, budget):
+    """run fn with a deterministic bound on the number of source lines executed inside mosaik/util.py (the helpers
+    are linear in the sizes; an endless loop becomes a failure of the case instead of a hanging check)"""
+    import sys
+    n = 0
+
+    def local(frame, event, arg):
+        nonlocal n
+        if event == "line":
+            n += 1
+            if n > budget:
+                raise LineBudget(budget)
+        return local
+
+    def tr(frame, event, arg):
+        return local if frame.f_code.co_filename.replace("\\", "/").endswith("mosaik/util.py") else None
+    old = sys.gettrace()
+    sys.settrace(tr)
+    try:
+        return fn()
+    finally:
+        sys.settrace(old)
+
+
 def run_case(case):
     """returns list of (rule, msg)"""
     from mosaik import util
@@ -53,6 +85,14 @@ def run_case(case):
     src = [Ent(f"s{i}") for i in range(ns)]
     dest = [Ent(f"d{i}") for i in range(nd)]
     dest_before = list(dest)
+    # "src_set and dest_set are iterables": the source set must support len() and slicing (list or tuple, the
+    # annotated and observed domain), the destination set is copied first and may be any iterable, one-shot ones
+    # (generator, iterator, filter) and views included
+    src_arg = tuple(src) if case.get("src_kind") == "tuple" else src
+    dk = case.get("dest_kind", "list")
+    dest_arg = {"list": lambda: dest, "tuple": lambda: tuple(dest), "gen": lambda: (d for d in dest_before),
+                "iter": lambda: iter(dest_before), "keys": lambda: dict.fromkeys(dest_before).keys(),
+                "filter": lambda: filter(None, dest_before)}[dk]()
     w = RecWorld()
     random.seed(seed)
     kw = {"evenly": evenly}
@@ -60,7 +100,10 @@ def run_case(case):
         kw["max_connects"] = mc
     out = []
     try:
-        ret = util.connect_randomly(w, src, dest, *attrs, **kw)
+        ret = bounded(lambda: util.connect_randomly(w, src_arg, dest_arg, *attrs, **kw), 50 * (ns + nd) + 1000)
+    except LineBudget as e:
+        return [("C18.no_termination", f"connect_randomly executed more than {e} lines of mosaik/util.py for "
+                                       f"{ns} sources and {nd} destinations ({len(w.calls)} connections made)")]
     except Exception as e:  # noqa
         return [("C18.exception", f"{type(e).__name__}: {e} (inside the documented precondition)")]
     srcs = [c[0] for c in w.calls]
@@ -217,9 +260,10 @@ def shard(prop, tier, seed, shard, nshards):
             continue
         for s in range(nseeds):
             case = dict(kind="randomly", n_src=ns, n_dest=nd, evenly=evenly, max_connects=mc,
-                        seed=seed * 100000 + s)
+                        seed=seed * 100000 + s, dest_kind=DEST_KINDS[s % len(DEST_KINDS)],
+                        src_kind=("list", "tuple")[(s // len(DEST_KINDS)) % 2])
             cls = ["evenly" if evenly else "random",
-                   "boundary" if (mc is not None and ns == nd * mc) else "inside"]
+                   "boundary" if (mc is not None and ns == nd * mc) else "inside", "dest=" + case["dest_kind"]]
             acc.record(case, nontrivial(case), cls)
             for f in check_case(case, acc):
                 if len(acc.failures) < 20:
@@ -252,7 +296,8 @@ def shard(prop, tier, seed, shard, nshards):
         hi = 200 if (evenly or mc is None) else nd * mc
         ns = draw(st.one_of(st.integers(0, hi), st.just(hi)))
         return dict(kind="randomly", n_src=ns, n_dest=nd, evenly=evenly, max_connects=mc,
-                    seed=draw(st.integers(0, 2 ** 31)))
+                    seed=draw(st.integers(0, 2 ** 31)), dest_kind=draw(st.sampled_from(DEST_KINDS)),
+                    src_kind=draw(st.sampled_from(["list", "tuple"])))
 
     @st.composite
     def hlarge(draw):
